@@ -74,3 +74,21 @@ def run():
                     pass
         finally:
             formulae.config["EVAL_UNSEEN_CATEGORIES"] = "error"
+
+
+def perturb_settings():
+    """Process-wide settings a user may have changed and a design must not depend on: numpy print options, pandas display
+    options, the random-number state, the working directory.  (Not the numpy error state or the warnings filters: those
+    legitimately change what raises / warns.)"""
+    import os
+    import random
+
+    import numpy as np
+    import pandas as pd
+
+    np.set_printoptions(precision=2, threshold=3, edgeitems=1, linewidth=30, suppress=True, floatmode="fixed", sign=" ")
+    for opt, val in (("display.max_rows", 4), ("display.max_columns", 3), ("display.precision", 1), ("display.width", 30), ("display.max_colwidth", 6)):
+        pd.set_option(opt, val)
+    np.random.seed(12345)
+    random.seed(5)
+    os.chdir("/")
